@@ -316,6 +316,10 @@ def g_perplexity(rng, cfg, n):
 
 def g_psnr(rng, cfg, n):
     x = ft(rng.grid(n * 4, G5), shape=(n, 2, 2))
+    if _v(rng, cfg) < 0.25:
+        # a stream whose target images are negative throughout (log-intensity images): the running maximum that
+        # `data_range=None` keeps must be allowed to stay below zero
+        return Batch((x, ft([-Fr(1, 4) - v for v in rng.grid(n * 4, G5)], shape=(n, 2, 2))))
     if rng.random() < 0.3:
         # flat target images (all-black / all-white / beyond the usual range): a constant batch still extends the
         # running min/max that `data_range=None` derives the range from
